@@ -168,4 +168,28 @@ def rule_terminal_root(ctx):
     return R
 
 
+LONG_INDEX_FUNCTIONS = (M + "dd_edge::getElemLong", M + "mdd2index_operation::_compute", M + "mdd2index_operation::compute")
+
+
+def rule_index_width(ctx):
+    """index sets with long (64-bit) offsets: the long lookup / conversion code keeps offsets and cardinalities in long"""
+    P = ctx.program
+    R = RuleResult("guard.index-width", "in the 64-bit index-set code (dd_edge::getElemLong, mdd2index) no local integer is initialised from a wider integer: offsets and cardinalities above 2^31 are not narrowed on the way")
+    for q in LONG_INDEX_FUNCTIONS:
+        for f in P.find(q):
+            g = Graph(f)
+            R.functions.add(f["inst"])
+            defs = [n for n in g.nodes if n.kind == "ldef" and n.ev.get("vtype")]
+            bad = [n for n in defs if n.ev.get("narrow")]
+            iid = "%s%s: %d integer local(s), none narrowing" % (q.replace(M, ""), f["sig"][:30], len(defs))
+            if not bad:
+                R.ok(iid, where(f), locals=len(defs))
+            for n in bad:
+                R.fail("%s: %s" % (q.replace(M, ""), n.ev["var"]), where(f, n.line), Finding(R.rule, f["file"], q, "narrow:" + n.ev["var"],
+                       "`%s %s = %s` narrows a %s value: offsets of index sets with 2^31 or more members are truncated, lookups fail or return the wrong member" % (
+                           n.ev["vtype"], n.ev["var"], n.ev["rhs"][:60], n.ev.get("itype", "wider")), n.line))
+    R.require_floor(3, "64-bit index-set functions")
+    return R
+
+
 RULES_ORPHAN = [rule_orphan, rule_iterator_init]
